@@ -253,7 +253,12 @@ fn update_best_com(
     resolution: f64,
     directed: bool,
 ) {
-    for (nbr_com, wt) in weights2com {
+    // visit the candidate communities in a fixed order: with `HashMap` order an exact
+    // tie between two communities was broken differently from call to call, so the
+    // result was not reproducible even with a seed
+    let mut candidates: Vec<(usize, f64)> = weights2com.into_iter().collect();
+    candidates.sort_by_key(|(com, _)| *com);
+    for (nbr_com, wt) in candidates {
         let gain = match directed {
             true => {
                 wt - resolution
